@@ -221,6 +221,15 @@ def encSubOutcome : Except Fail SubOutcome → String
   | .error (.refused c k) => "err:" ++ encCode c ++ ":" ++ encCause k
   | .error (.panic s) => "panic:" ++ encSite s
 
+/-- does the request name a target whose configuration was written by the controllers?  Whether
+    such a configuration exists at all (a transaction can stall behind an earlier one that waits
+    for a master) is not modelled: the answer is then prefixed with `maybe`, and the harness accepts
+    "no such configuration" as well. -/
+def consultsTouched (st : NBState) (targets : List Path.Str) : Bool :=
+  st.configs.any fun c => c.2 == .touched && targets.any fun t => !t.isEmpty && hasPrefix c.1 (t ++ ['-'])
+
+def maybeIf (b : Bool) (s : String) : String := if b then "maybe " ++ s else s
+
 /-! ### the stateful driver side -/
 
 initialize stRef : IO.Ref NBState ← IO.mkRef (NBState.init ⟨0, [], []⟩)
@@ -242,6 +251,7 @@ def handleIO (op : String) (args : List String) : IO (Option String) := do
       stRef.set st'
       match o with
       | .accepted tx r => pure (some (encTx tx r))
+      | .downstreamPanic _ => pure (some "panic downstream sliceBounds")
       | .failed f => pure (some (encFail f))
   | "log" => do
     let st ← stRef.get
@@ -251,11 +261,13 @@ def handleIO (op : String) (args : List String) : IO (Option String) := do
     | none => pure none
     | some t => do
       let st ← stRef.get
-      match handleGet st t.toGet with
+      let req := t.toGet
+      let unc := consultsTouched st ((req.paths.map fun p => getTargetOf req.pfx p) ++ [prefixTarget req.pfx])
+      match handleGet st req with
       | .ok .allTargets => pure (some "all")
-      | .ok .reached => pure (some "reached")
+      | .ok .reached => pure (some (maybeIf unc "reached"))
       | .ok .relayed => pure (some "relayed")
-      | .error f => pure (some (encFail f))
+      | .error f => pure (some (maybeIf unc (encFail f)))
   | "sub" => do
     let ms := args.mapM fun a => (dropPfx "m=" a).bind decSubMsg
     match ms with
@@ -316,10 +328,11 @@ def handleIO (op : String) (args : List String) : IO (Option String) := do
         | none => pure none
         | some ch => do
           let st ← stRef.get
+          let unc := mapGet (configID t ty v) st.configs == some .touched
           match handleLeafSel concreteAbs st ⟨t, ty, v, sp, ch⟩ with
-          | .ok .reached => pure (some "reached")
-          | .ok .either => pure (some "either")
-          | .error f => pure (some (encFail f))
+          | .ok .reached => pure (some (maybeIf unc "reached"))
+          | .ok .either => pure (some (maybeIf unc "either"))
+          | .error f => pure (some (maybeIf unc (encFail f)))
       | _, _, _, _ => pure none
     | _ => pure none
   -- pure text helpers (differential tests of the path.go functions)
